@@ -51,6 +51,7 @@ def add_noise(rng, src):
 
 def run(chk):
     proved = setup(chk, "C02")
+    basesuites.run_kw(chk)
     basesuites.run_f64(chk, 1500 if chk.tier == "quick" else 20000)
     rng = rng_for(chk, 2)
     quick = chk.tier == "quick"
